@@ -388,6 +388,33 @@ def r5_all_children_pushed(ctx, rule):
                         pushes_all = True
             if any(isinstance(s, (ast.Break, ast.Return, ast.Continue, ast.If)) for s in walk_stmts(n.body)):
                 pushes_all = False
+    # ... and they are the children of the item popped in THIS call, pushed before the call returns: the emptiness test of the next
+    # call must see them (seed C17-fb expanded the previous item lazily, after `if len(self.p_queue) == 0: return None` - when the
+    # item popped last was the only heap entry and still has children, the queue reports exhaustion and the tail is never emitted)
+    pops = [st for st in nfn.body if isinstance(st, ast.Assign) and len(st.targets) == 1 and isinstance(st.targets[0], ast.Name)
+            and isinstance(st.value, ast.Call) and call_name(st.value) == 'heapq.heappop']
+    nstores = stores_in(nfn)
+    for n in walk_local(nfn):
+        if isinstance(n, ast.For) and isinstance(n.iter, ast.Call) and call_name(n.iter) == 'self.pcfg.find_children' and n.iter.args:
+            arg = n.iter.args[0]
+            if isinstance(arg, ast.Name) and len(nstores.get(arg.id, [])) == 1 and nstores[arg.id][0][1] is not None:
+                arg = nstores[arg.id][0][1]
+            if len(pops) != 1:
+                ok = False
+                ctx.unk(rule, nq, 'expected one top-level `x = heapq.heappop(..)` in next(), found %d' % len(pops))
+            elif U(arg) == pops[0].targets[0].id + '.pt_item':
+                if n not in nfn.body or nfn.body.index(n) < nfn.body.index(pops[0]):
+                    ok = False
+                    ctx.unk(rule, nq, 'the loop that pushes the children is not an unconditional statement of next() after the pop')
+            elif isinstance(arg, ast.Attribute) and U(arg).startswith('self.'):
+                ok = False
+                ctx.bad(rule, nq, 'children pushed for %s, not for the item popped in this call' % U(arg),
+                        'the children of a popped pre-terminal enter the queue before next() returns it: pushed by a later call they are '
+                        'missing whenever the queue is examined in between (the emptiness test, a save) - a chain that is the only heap '
+                        'entry ends early', None, n, firm=True)
+            else:
+                ok = False
+                ctx.unk(rule, nq, 'children pushed for %s - not recognisably the item popped in this call' % U(arg)[:50])
     push_unconditional(ctx, rule)
     if not pushes_all:
         ok = False
